@@ -8,13 +8,15 @@
 (* a key is: explicit, else innermost enclosing context, else default.     *)
 (* Backend kind: an explicitly chosen backend wins over `prefer`;          *)
 (* require='sharedmem' always yields a thread-based backend (or ValueError *)
-(* when a non-shared-memory backend is passed explicitly to Parallel).     *)
+(* when a non-shared-memory backend is passed explicitly to Parallel);     *)
+(* prefer='processes' moves an unnamed thread-based default to processes.  *)
 (* TLC generates programs (enter/exit per thread) together with what every *)
 (* thread must observe after every step; they are replayed on real threads.*)
 (***************************************************************************)
 EXTENDS Integers, Sequences, FiniteSets, TLC, Json
 
-CONSTANTS Threads, Frames, Explicits, MaxDepth, MaxLen, Gen
+CONSTANTS Threads, Frames, Explicits, MaxDepth, MaxLen, Gen,
+          DefB      \* kind of the process-wide default backend: "proc" (loky, the stock default) or "thr" (a thread-based backend registered with make_default=True)
 \* Frames: set of records over the keys below, value "U" = unset; Explicits: SEQUENCE of such records
 
 Keys == {"b", "nj", "vb", "mx", "mm", "tf", "pf", "rq"}
@@ -34,7 +36,7 @@ Resolve(s, e, k) == IF e[k] # "U" THEN e[k] ELSE IF Innermost(s, k) # "U" THEN I
 
 \* the active (context or default) backend would be switched to threads (finding D11 concerns n_jobs in exactly this situation)
 WouldForce(s, e) ==
-  LET ctxb == Innermost(s, "b") base == IF ctxb # "U" THEN ctxb ELSE "proc"
+  LET ctxb == Innermost(s, "b") base == IF ctxb # "U" THEN ctxb ELSE DefB
   IN (Resolve(s, e, "rq") = "sharedmem" /\ base = "proc") \/ (ctxb = "U" /\ Resolve(s, e, "pf") = "threads" /\ base = "proc")
 
 \* what constructing Parallel(**e) in a thread whose stack is s must give
@@ -48,9 +50,12 @@ Expect(s, e) ==
           THEN \* explicit backend: it is used whatever prefer says; sharedmem cannot be satisfied by a process backend
                IF rq = "sharedmem" /\ e.b = "proc" THEN [kind |-> "ValueError"]
                ELSE [kind |-> "ok", backend |-> e.b, forced |-> WouldForce(s, e), plain |-> plain]
-          ELSE LET base == IF ctxb # "U" THEN ctxb ELSE "proc"
+          ELSE LET base == IF ctxb # "U" THEN ctxb ELSE DefB
                    forced == (rq = "sharedmem" /\ base = "proc") \/ (ctxb = "U" /\ pf = "threads" /\ base = "proc")
-               IN [kind |-> "ok", backend |-> IF forced THEN "thr" ELSE base, forced |-> forced, plain |-> plain]
+                   \* no backend named anywhere, processes preferred, thread-based default: the default PROCESS backend is used
+                   \* (every other setting of the enclosing contexts, n_jobs included, still applies)
+                   forcedP == ctxb = "U" /\ pf = "processes" /\ base = "thr"
+               IN [kind |-> "ok", backend |-> IF forced THEN "thr" ELSE IF forcedP THEN "proc" ELSE base, forced |-> forced, plain |-> plain]
 
 Observations == [t \in Threads |-> [i \in 1..Len(Explicits) |-> Expect(stack'[t], Explicits[i])]]
 Log(a) == hist' = IF Gen THEN Append(hist, [act |-> a, obs |-> Observations]) ELSE hist
